@@ -20,7 +20,7 @@ Proof. exact beh_eq_trans. Qed.
 Print Assumptions C01_equiv_transitive.
 
 (* ---- the label-resolution part of the compiler's back end, proved for all inputs ---- *)
-From ES Require Import Ssb.Tables Ssb.Machine Comp.Passes Comp.PopSem Comp.RemoveSem Comp.TableRight Comp.BackEnd.
+From ES Require Import Ssb.Tables Ssb.Machine Comp.Passes Comp.PopSem Comp.RemoveSem Comp.TableRight Comp.BackEnd Comp.EraseSem Comp.FinalizeSem.
 
 (* For the label table LabelFinalizer computes and the op list OpsLabelJumpToRemover builds from it: every
    routine of the op list behaves - for all outcomes of all tests, to every length - like the corresponding
@@ -34,14 +34,31 @@ Theorem C01_label_resolution_preserves : forall rs fin t P',
 Proof. exact label_resolution_preserves_b. Qed.
 Print Assumptions C01_label_resolution_preserves.
 
+(* LabelFinalizer (its removal of jumps to labels that directly follow) keeps the behaviour of every routine.
+   [finalize_ok]: no routine ends in a label, nothing but an op directly follows a context op, labels are
+   unique, every jumped-to label is defined, no cycle of silent moves. *)
+Theorem C01_finalizer_preserves : forall rs fin t,
+  finalize rs = (fin, t) -> finalize_ok rs = true ->
+  Forall2 (entry_rel (beh_eq (cfg_of_pops rs) (cfg_of_pops fin))) (pop_entries rs) (pop_entries fin).
+Proof. exact finalize_preserves. Qed.
+Print Assumptions C01_finalizer_preserves.
+
+(* both passes: from the pseudo code that strip_last_label hands over to the final op list *)
+Theorem C01_finalize_and_remove_preserve : forall rs fin t P',
+  finalize rs = (fin, t) -> remove_all t fin = Ok P' ->
+  finalize_ok rs = true -> backend_ok fin P' = true ->
+  Forall2 (entry_rel (beh_eq (cfg_of_pops rs) (cfg_of_ssb P'))) (pop_entries rs) (ssb_entries P').
+Proof. exact finalize_and_remove_preserve. Qed.
+Print Assumptions C01_finalize_and_remove_preserve.
+
 (* non-vacuity: a loop with a test, labels at several places, a cross-routine jump *)
 Example C01_backend_example :
-  let rs := [[PLabel 0; POp (mkOp 1 "a" []); PJump (mkOp 2 "Branch" [PInt 1; PInt 2]) 1; PJump (mkOp 3 "Jump" []) 0;
-              PLabel 1; PLabel 2; POp (mkOp 4 "End" [])];
-             [PJump (mkOp 5 "Jump" []) 2]]%Z%string in
+  let rs := [[PLabel 0; POp (mkOp 1 "a" []); PJump (mkOp 2 "Branch" [PInt 1; PInt 2]) 1; POp (mkOp 3 "b" []);
+              PJump (mkOp 4 "Jump" []) 1; PLabel 1; PLabel 2; POp (mkOp 5 "End" []); PJump (mkOp 6 "Jump" []) 0];
+             [PJump (mkOp 7 "Jump" []) 2]]%Z%string in
   let '(fin, t) := finalize rs in
   match remove_all t fin with
-  | Ok P' => backend_ok fin P' = true
+  | Ok P' => backend_ok fin P' = true /\ finalize_ok rs = true /\ Nat.ltb (length (concat fin)) (length (concat rs)) = true
   | Err _ => False
   end.
-Proof. vm_compute. reflexivity. Qed.
+Proof. vm_compute. repeat split; reflexivity. Qed.
